@@ -154,6 +154,7 @@ type loopFrame struct {
 type cellRange struct {
 	Obj, Lo, Hi *Term // cells [Lo,Hi) of object Obj
 	T           types.Type // if non-nil: the range is exactly one value of this type (for cell-type tags)
+	ElemTag     string     // if set: every cell of the range has this cell type (elements of a slice of a basic type)
 }
 
 func (tr *FnTr) pos(p token.Pos) string {
@@ -932,6 +933,8 @@ func (tr *FnTr) havocMem(m, alloc *Term, frame []cellRange, allocs bool, tag str
 				a = Store(a, Add(r.Lo, Int(int64(k))), vc.Fresh(fmt.Sprintf("hv_%s_%d", tag, i), SInt))
 				if leaves != nil {
 					a.Name = leafTag(leaves[k])
+				} else if r.ElemTag != "" {
+					a.Name = r.ElemTag
 				}
 			}
 			m1 = vc.Def("mem_hv_"+tag, Store(m1, r.Obj, a))
@@ -943,6 +946,9 @@ func (tr *FnTr) havocMem(m, alloc *Term, frame []cellRange, allocs bool, tag str
 			for k := int64(0); k < mx; k++ {
 				idx := Add(r.Lo, Int(k))
 				a = Store(a, idx, Ite(Lt(idx, r.Hi), vc.Fresh(fmt.Sprintf("hv_%s_%d", tag, i), SInt), Select(old, idx)))
+				if r.ElemTag != "" {
+					a.Name = r.ElemTag
+				}
 			}
 			m1 = vc.Def("mem_hv_"+tag, Store(m1, r.Obj, a))
 			continue
@@ -950,7 +956,15 @@ func (tr *FnTr) havocMem(m, alloc *Term, frame []cellRange, allocs bool, tag str
 		na := vc.Fresh(fmt.Sprintf("hvarr_%s_%d", tag, i), SArr)
 		j := Sym("j!q", SInt)
 		vc.Assume(Forall([]*Term{j}, Implies(Or(Lt(j, r.Lo), Ge(j, r.Hi)), Eq(Select(na, j), Select(old, j))), Select(na, j)))
-		m1 = vc.Def("mem_hv_"+tag, Store(m1, r.Obj, na))
+		if r.ElemTag != "" {
+			// only cells of one cell type change in this object: reads of other cell types
+			// may skip this version (the store is not merged with an earlier one)
+			st := mk("store", SMem, m1, r.Obj, na)
+			st.Name = "hv:" + r.ElemTag
+			m1 = vc.Def("mem_hv_"+tag, st)
+		} else {
+			m1 = vc.Def("mem_hv_"+tag, Store(m1, r.Obj, na))
+		}
 	}
 	// Objects allocated meanwhile have ids >= alloc. Nothing is known about the content of
 	// m at such ids (they were unallocated), so "m1 at those ids" already stands for an
@@ -1177,6 +1191,45 @@ func (tr *FnTr) ptrSeparation(obj, off *Term, elem types.Type) {
 		tr.vc.Assume(And(cs...))
 	}
 	top.typedPtrs = append(top.typedPtrs, typedObj{obj: obj, elem: elem, off: off})
+}
+
+// ptrSepFacts: the same facts as ptrSeparation for a pointer met in a specification (as a
+// formula, not registered).
+func (tr *FnTr) ptrSepFacts(v Val) *Term {
+	top := tr.top
+	lay0 := layoutOf(v.T)
+	var cs []*Term
+	for i, lf := range lay0.Leaves {
+		if lf.K != LObj || lf.Str || v.L[i].IntConst() != nil {
+			continue
+		}
+		if !(i+1 < len(lay0.Leaves) && lay0.Leaves[i+1].K == LOff && !(i+2 < len(lay0.Leaves) && lay0.Leaves[i+2].K == LLen)) {
+			continue
+		}
+		el := refElem(v.T, lay0, i)
+		if el == nil {
+			continue
+		}
+		if _, isStruct := el.Underlying().(*types.Struct); !isStruct {
+			continue
+		}
+		obj, off := v.L[i], v.L[i+1]
+		sz := sizeOf(el)
+		n := 0
+		for k := len(top.typedPtrs) - 1; k >= 0 && n < 8; k-- {
+			p := top.typedPtrs[k]
+			if p.obj.Key() == obj.Key() && p.off.Key() == off.Key() {
+				continue
+			}
+			if typeContains(p.elem, el, 0) || typeContains(el, p.elem, 0) {
+				continue
+			}
+			n++
+			psz := sizeOf(p.elem)
+			cs = append(cs, Or(Ne(obj, p.obj), Le(Add(off, Int(int64(sz))), p.off), Le(Add(p.off, Int(int64(psz))), off)))
+		}
+	}
+	return And(cs...)
 }
 
 func (tr *FnTr) assumeTyped(v Val, alloc *Term) {
